@@ -195,5 +195,81 @@ theorem gLoop_abstract (S : List Step) (rlen : Nat) (e : Event)
         · simp only [ht, Bool.not_false, if_true, Bool.false_and]
           exact ih q _ _ hN
 
+/-- states of GenericStrategy and of the position machine: same positions, and every position
+    carries at least one counter (which is what the code uses as "came from the parent") -/
+structure StRel (g : GState) (a : AState) : Prop where
+  pos : g.stack.map (fun l => l.map GPos.x) = a
+  cous : ∀ l ∈ g.stack, ∀ p ∈ l, p.cous ≠ []
+
+theorem gStep_abstract (S : List Step) (hnp : NoPositional ns vs S)
+    (hlast : ∀ e, lastResult S e ns = .bool true) (g : GState) (a : AState) (h : StRel g a) (e : Event) :
+    StRel (gStep S ns vs g e).1 (aStep ns vs S a e).1 ∧ (gStep S ns vs g e).2 = (aStep ns vs S a e).2 := by
+  obtain ⟨hpos, hcous⟩ := h
+  subst hpos
+  unfold gStep aStep
+  by_cases he : e.isEnd = true
+  · simp only [he, if_true]
+    refine ⟨⟨by simp [List.map_drop], ?_⟩, trivial⟩
+    intro l hl
+    exact hcous l (List.mem_of_mem_drop hl)
+  · simp only [he, Bool.false_eq_true, if_false]
+    by_cases hm : e.isNsOrCdata = true
+    · simp only [hm, if_true]
+      exact ⟨⟨rfl, hcous⟩, trivial⟩
+    · simp only [hm, Bool.false_eq_true, if_false]
+      -- the top of the stack
+      obtain ⟨top, htopdef, htop⟩ : ∃ top, g.stack.headD [] = top ∧ ∀ p ∈ top, p.cous ≠ [] := by
+        refine ⟨_, rfl, ?_⟩
+        cases hst : g.stack with
+        | nil => intro p hp; simp at hp
+        | cons l ls => intro p hp; exact hcous l (by simp [hst]) p (by simpa using hp)
+      have h1 : (g.stack.map fun l => l.map GPos.x).headD [] = top.map GPos.x := by
+        rw [← htopdef]; cases g.stack <;> simp
+      rw [h1, htopdef]
+      have hq : (top.map fun p => ((p.x, p.cous, []) : QEntry)).map qAbs
+          = (top.map GPos.x).map fun x => ((x, true) : AEntry) := by
+        rw [List.map_map, List.map_map]
+        apply List.map_congr_left
+        intro p hp
+        have := htop p hp
+        simp [qAbs, Function.comp, this]
+      have hacc := gLoop_abstract ns vs S (realLen S) e hnp (hlast e)
+        (2 * S.length + (top.map fun p => ((p.x, p.cous, []) : QEntry)).length + 2)
+        (top.map fun p => ((p.x, p.cous, []) : QEntry)) ⟨[], g.store, .none⟩ ⟨[], false⟩
+        ⟨rfl, by simp, rfl⟩
+      rw [hq] at hacc
+      simp only [List.length_map] at hacc ⊢
+      refine ⟨⟨?_, ?_⟩, hacc.ret⟩
+      · simp only
+        split
+        · rw [List.map_cons, hacc.pos]
+        · rfl
+      · simp only
+        split
+        · intro l hl
+          rcases List.mem_cons.mp hl with h1 | h1
+          · subst h1; exact hacc.cous
+          · exact hcous l h1
+        · exact hcous
+
+/-- related runs deliver the same results -/
+theorem runOne_rel {σ τ : Type} (f : σ → Event → σ × Val) (g : τ → Event → τ × Val) (R : σ → τ → Prop)
+    (h : ∀ s t e, R s t → R (f s e).1 (g t e).1 ∧ (f s e).2 = (g t e).2) :
+    ∀ (es : List Event) (s : σ) (t : τ), R s t → (runOne f s es).1 = (runOne g t es).1 := by
+  intro es
+  induction es with
+  | nil => intro s t _; rfl
+  | cons e es ih =>
+    intro s t hr
+    obtain ⟨h1, h2⟩ := h s t e hr
+    simp only [runOne, h2, ih _ _ h1]
+
+/-- without position tests GenericStrategy reports what the position machine reports -/
+theorem generic_eq_abstract (S : List Step) (hnp : NoPositional ns vs S)
+    (hlast : ∀ e, lastResult S e ns = .bool true) (es : List Event) :
+    (runOne (gStep S ns vs) gInit es).1 = (runOne (aStep ns vs S) [[0]] es).1 :=
+  runOne_rel _ _ StRel (fun s t e hr => gStep_abstract ns vs S hnp hlast s t hr e) es gInit [[0]]
+    ⟨rfl, by simp [gInit]⟩
+
 end
 end Genshi.Path
